@@ -1,10 +1,11 @@
 (* C03 - Basis decomposition (QubitCircuit.resolve_gates) preserves the unitary exactly and stays in the basis.
 
    Model: Model/Resolve.v (`resolve`) over the rule tables Gen/Decompose.v, regenerated from circuit/_decompose.py and
-   resolve_gates on every run; gate matrices Gen/Gates.v.  The theorems describe the tree with the two proposed fixes
-   (fixes/C03-pauli-phase-marker, fixes/C03-string-basis-membership): Gen/Decompose.v records where the Pauli phase marker
-   is appended and whether a string basis is turned into a list; on the unchanged tree these flags are false, the
-   proofs below do not go through and the `_refuted_unfixed` statements apply.
+   resolve_gates on every run; gate matrices Gen/Gates.v.  The theorems describe the tree with the four fixes
+   fixes/C03-pauli-phase-marker, C03-string-basis-membership, C03-basis-rotations-only, C03-iswap-pass-first:
+   Gen/Decompose.v records where the Pauli phase marker is appended, whether a string basis is turned into a list, whether
+   basis_1q is reduced to its rotations, and the precedence list of the two-qubit passes; on a tree without them the
+   flags / the list differ, the proofs below do not go through and the `_refuted_unfixed` statements apply.
 
    Quantification: every basis specification b (string or list form), every circuit c whose gates are well-formed
    instances of the resolvable kinds (X Y Z SNOT H SQRTNOT PHASEGATE RX RY RZ IDLE CNOT CSIGN SWAP ISWAP SQRTSWAP SQRTISWAP
@@ -22,17 +23,22 @@ Theorem resolve_sem : forall b c c', Forall wf_gate c -> resolve b c = Ok c' ->
 Proof. exact resolve_sem_proof. Qed.
 Print Assumptions resolve_sem.
 
-(* for a valid choice of basis the result contains only gates of the basis, GLOBALPHASE and IDLE *)
-Theorem resolve_in_basis : forall b c c' cf keep, Forall wf_gate c -> parse_basis b = Ok (cf, keep) -> valid_cfg cf = true ->
+(* for EVERY accepted basis that names at least one two-qubit gate (any number of them, IDLE entries, repeated names, ...)
+   the result contains only gates of the basis, GLOBALPHASE and IDLE *)
+Theorem resolve_in_basis : forall b c c' cf keep, Forall wf_gate c -> parse_basis b = Ok (cf, keep) -> c2q cf <> [] ->
   resolve b c = Ok c' -> Forall (fun g => in_basis cf g = true) c'.
-Proof. exact resolve_in_basis_proof. Qed.
+Proof. exact resolve_in_basis_accepted_proof. Qed.
 Print Assumptions resolve_in_basis.
+(* every accepted basis has two or three distinct rotations and eliminates the third exactly when there are two *)
+Theorem resolve_rotations_consistent : forall b cf keep, parse_basis b = Ok (cf, keep) -> rot_ok cf = true.
+Proof. exact parse_rot_ok. Qed.
+Print Assumptions resolve_rotations_consistent.
 
 (* ... and such a request is not refused, unless the circuit holds a SQRTSWAP / SQRTISWAP that is not the requested gate *)
-Theorem resolve_succeeds : forall b c cf keep, Forall wf_gate c -> parse_basis b = Ok (cf, keep) -> valid_cfg cf = true ->
+Theorem resolve_succeeds : forall b c cf keep, Forall wf_gate c -> parse_basis b = Ok (cf, keep) -> c2q cf <> [] ->
   Forall (fun g => gname g = "SQRTSWAP"%string \/ gname g = "SQRTISWAP"%string -> mem (gname g) (c2q cf) = true) c ->
   exists c', resolve b c = Ok c'.
-Proof. exact resolve_succeeds_proof. Qed.
+Proof. exact resolve_succeeds_accepted_proof. Qed.
 Print Assumptions resolve_succeeds.
 
 (* the 5 string forms, the 5 x 4 list forms, both processor native sets and the default basis are valid choices *)
@@ -63,12 +69,11 @@ Theorem resolve_refuses_notimplemented : forall b c cf keep g, parse_basis b = O
 Proof. exact resolve_refuses_notimplemented_proof. Qed.
 Print Assumptions resolve_refuses_notimplemented.
 
-(* invalid basis specifications are refused: unknown string, exactly one single-qubit entry *)
+(* invalid basis specifications are refused: unknown string, exactly one rotation named (IDLE and repetitions not counted) *)
 Theorem resolve_valid_basis_string : forall s c, mem s basis_2q_valid = false -> resolve (BStr s) c = Error.
 Proof. exact resolve_invalid_string_proof. Qed.
 Print Assumptions resolve_valid_basis_string.
-Theorem resolve_valid_basis_one_rotation : forall l c,
-  length (filter (fun g => negb (mem g basis_2q_valid) && mem g basis_1q_valid) l) = 1%nat -> resolve (BList l) c = Error.
+Theorem resolve_valid_basis_one_rotation : forall l c, length (rotations_of l) = 1%nat -> resolve (BList l) c = Error.
 Proof. exact resolve_one_rotation_proof. Qed.
 Print Assumptions resolve_valid_basis_one_rotation.
 
@@ -85,7 +90,7 @@ Print Assumptions resolve_gatewise.
 (* ---- the unchanged code (refuted) and the guard of resolve_in_basis (necessary) -------------------------------------- *)
 (* resolve_sem fails for the code as shipped: X in the default basis loses its GLOBALPHASE(pi/2) marker *)
 Theorem resolve_sem_refuted_unfixed : exists b c out, Forall wf_gate c /\
-  resolve_gen false str_basis_listified b c = Ok out /\
+  resolve_gen false cur_flags basis_2q_order b c = Ok out /\
   scirc_eqb 1 (map to_sgate out) (map to_sgate c) = false /\
   scirc_eqb 1 (phase (Div Pi (Num 2)) :: map to_sgate out) (map to_sgate c) = true.
 Proof. exact sem_refuted_unfixed. Qed.
@@ -93,19 +98,27 @@ Print Assumptions resolve_sem_refuted_unfixed.
 
 (* resolve_refuses fails for the code as shipped: substring test on a string basis keeps T for basis="CNOT" *)
 Theorem resolve_refuses_refuted_unfixed : exists c, find_rule "T" = None /\ String.eqb "T" "CNOT" = false /\
-  resolve_gen true false (BStr "CNOT") c = Ok c /\ In (gT 0 0) c.
+  resolve_gen true (PF false rot_normalised) basis_2q_order (BStr "CNOT") c = Ok c /\ In (gT 0 0) c.
 Proof. exact refuses_refuted_unfixed. Qed.
 Print Assumptions resolve_refuses_refuted_unfixed.
 
-(* without valid_cfg the in-basis clause fails (open known findings idle-counted-as-rotation, csign-iswap-swap-kept) *)
-Theorem resolve_in_basis_refuted_idle : exists b c out cf keep, Forall wf_gate c /\ parse_basis b = Ok (cf, keep) /\
-  valid_cfg cf = false /\ resolve b c = Ok out /\ existsb (fun g => negb (in_basis cf g)) out = true.
-Proof. exact in_basis_refuted_idle. Qed.
-Print Assumptions resolve_in_basis_refuted_idle.
-Theorem resolve_in_basis_refuted_csign_iswap : exists b c out cf keep, Forall wf_gate c /\ parse_basis b = Ok (cf, keep) /\
-  valid_cfg cf = false /\ resolve b c = Ok out /\ existsb (fun g => negb (in_basis cf g)) out = true.
-Proof. exact in_basis_refuted_csign_iswap. Qed.
-Print Assumptions resolve_in_basis_refuted_csign_iswap.
+(* resolve_in_basis fails for the code before fixes/C03-basis-rotations-only (IDLE counted as a rotation) ... *)
+Theorem resolve_in_basis_refuted_idle_unfixed : exists b c out cf keep, Forall wf_gate c /\
+  parse_basis_gen old_flags b = Ok (cf, keep) /\ c2q cf <> [] /\
+  resolve_gen pauli_marker_to_temp old_flags basis_2q_order b c = Ok out /\ existsb (fun g => negb (in_basis cf g)) out = true.
+Proof. exact in_basis_refuted_idle_unfixed. Qed.
+Print Assumptions resolve_in_basis_refuted_idle_unfixed.
+(* ... and before fixes/C03-iswap-pass-first (CSIGN pass run although SWAP was kept for the ISWAP pass) *)
+Theorem resolve_in_basis_refuted_csign_iswap_unfixed : exists b c out cf keep, Forall wf_gate c /\
+  parse_basis b = Ok (cf, keep) /\ c2q cf <> [] /\
+  resolve_gen pauli_marker_to_temp cur_flags old_order b c = Ok out /\ existsb (fun g => negb (in_basis cf g)) out = true.
+Proof. exact in_basis_refuted_csign_iswap_unfixed. Qed.
+Print Assumptions resolve_in_basis_refuted_csign_iswap_unfixed.
+(* the remaining hypothesis of resolve_in_basis is necessary: a basis without two-qubit gate is accepted and keeps CNOT *)
+Theorem resolve_in_basis_refuted_no_2q : exists b c out cf keep, Forall wf_gate c /\ parse_basis b = Ok (cf, keep) /\
+  c2q cf = [] /\ resolve b c = Ok out /\ existsb (fun g => negb (in_basis cf g)) out = true.
+Proof. exact in_basis_refuted_no_2q. Qed.
+Print Assumptions resolve_in_basis_refuted_no_2q.
 
 (* ---- non-vacuity ---------------------------------------------------------------------------------------------------- *)
 (* a 7-gate circuit on 6 qubits (X, TOFFOLI, PHASEGATE, SWAP, FREDKIN, RY, GLOBALPHASE; scattered placements) is well formed,
@@ -120,3 +133,9 @@ Example refusals_inhabited :
   resolve (BList default_basis) [MG "BERKELEY" [0; 1] [] [] 0]%nat = Error /\ find_rule "BERKELEY" = Some RRaise /\
   find_rule "SWAPalpha" = Some RRaise /\ find_rule "SQRTSWAP" = Some RRaise /\ find_rule "SQRTISWAP" = Some RRaise.
 Proof. exact ex_refused. Qed.
+(* the two formerly failing requests ([CNOT;RX;RY;IDLE], [CNOT;IDLE], [CSIGN;ISWAP;RX;RY;RZ] with SWAP) are now served in the basis *)
+Example repaired_requests_in_basis : forallb (fun bc => match parse_basis (fst bc), resolve (fst bc) (snd bc) with
+                                             | Ok ck, Ok out => forallb (in_basis (fst ck)) out | _, _ => false end)
+  [(BList ["CNOT"; "RX"; "RY"; "IDLE"]%string, [gRZ 0 0]); (BList ["CNOT"; "IDLE"]%string, [gRZ 0 0; gX 1 1]);
+   (BList ["CSIGN"; "ISWAP"; "RX"; "RY"; "RZ"]%string, [gSWAP 0 1 0; MG "CNOT" [1%nat] [0%nat] [] 1%nat])] = true.
+Proof. exact repaired_requests. Qed.
